@@ -16,6 +16,36 @@ PROPS = {
         "technique": "Lean 4 proof (induction over association lists / folds) + exhaustive small-scope and random correspondence",
         "assumptions": [],
     },
+    "C03": {
+        "rule": "five trust-anchor registries (right root, empty, unrelated root, right root registered for the reader purpose, mixed) x authentic response + single-point alterations of issuerAuth: payload bytes (sampled; thorough: all), signature bytes, truncation, detached payload, alg ES384 / removed / extra protected label, "
+                "x5chain removed / wrong type / truncated DER / moved to the protected header / arrays in both orders, extra unprotected label, certificate substitutions (other DS under the same IACA, DS of another IACA, self-signed and expired certificates carrying the genuine key, the IACA itself as leaf). Distinct by delivered bytes",
+        "xlate_items": [],
+        "trusted_base": ["Model/ReaderAuth.lean: hand model of handle_response / validate_response / issuer_authentication / device_authentication over 'facts' of the delivered message", "harness abstraction function (auth.rs::facts): independent Sig_structure, p256 and sha2 used directly, x509-cert; chain validation result and DER/COSE parsing are taken from the library (C12/C16/C17 cover them)", "ECDSA unforgeability / hash collision resistance are not part of the theorems: they relate verdicts to what the primitive accepts"],
+        "level_text": "Lean theorems (decision logic stated outright, all fact combinations): issuer authentication is Valid iff the response decrypts/decodes/carries an mDL document with decodable x5chain and core namespace, chain validation has no error, and COSE verification under the leaf key succeeds over the attached payload and protected header; every non-Valid status has an error entry; each listed alteration gives not-Valid. Tied by adversarial correspondence over registries x alterations, with the predicate evaluated on the real verdicts.",
+        "level_note": "Trusted: Lean kernel; fact extraction; crypto facts observed with RustCrypto crates directly; chain validation itself is C12.",
+        "technique": "Lean 4 proof (decision logic, case analysis) + adversarial alteration correspondence",
+        "assumptions": ["signature unforgeability (only to conclude that an altered message is not accepted by the primitive)"],
+    },
+    "C04": {
+        "rule": "authentic responses (2 and 5 disclosed elements) altered by a holder who re-signs device authentication and re-encrypts: per element value / identifier / random / digestID changed, item copied to another namespace, item injected, issuerAuth of another docType from the same issuer, items reordered; "
+                "digests recomputed by the harness with sha2 from the item bytes on the wire. Distinct by delivered bytes",
+        "xlate_items": [],
+        "trusted_base": ["Model/ReaderAuth.lean: hand model of handle_response / validate_response / issuer_authentication / device_authentication over 'facts' of the delivered message", "harness abstraction function (auth.rs::facts): independent Sig_structure, p256 and sha2 used directly, x509-cert; chain validation result and DER/COSE parsing are taken from the library (C12/C16/C17 cover them)", "ECDSA unforgeability / hash collision resistance are not part of the theorems: they relate verdicts to what the primitive accepts"],
+        "level_text": "The full-strength statement (Valid implies digests and docType bound to the MSO) is proved FALSE of the code as modelled (witness theorems C04_full_fails, C04_full_fails_doctype); partial theorems state what holds (the MSO signature is checked; the outcome is independent of the binding facts). The check evaluates the C04 predicate on real verdicts and reproduces the defect with concrete replays.",
+        "level_note": "Trusted: as C03. Known finding F-C04 unless repaired.",
+        "technique": "Lean 4 proof of the negation by witness + partial theorems + holder-alteration correspondence",
+        "assumptions": ["hash collision resistance"],
+    },
+    "C05": {
+        "rule": "pairs of concurrent sessions: authentic response; cross-session replay both ways (re-encrypted for the other reader); re-signed with a fresh key / with the issuer key; signature byte flips and truncation; device namespaces altered with and without re-signing, re-encoded; deviceMac; attached payload; protected alg ES384 / absent re-signed; issuerAuth payload detached; "
+                "plus the library's to-be-signed bytes vs an independent computation from wire bytes only (QR payload, eReaderKey bytes) and vs Lean's Sig_structure. Distinct by delivered bytes",
+        "xlate_items": [],
+        "trusted_base": ["Model/ReaderAuth.lean: hand model of handle_response / validate_response / issuer_authentication / device_authentication over 'facts' of the delivered message", "harness abstraction function (auth.rs::facts): independent Sig_structure, p256 and sha2 used directly, x509-cert; chain validation result and DER/COSE parsing are taken from the library (C12/C16/C17 cover them)", "ECDSA unforgeability / hash collision resistance are not part of the theorems: they relate verdicts to what the primitive accepts"],
+        "level_text": "Lean theorems: device authentication is Valid iff the response reaches validation and the device signature verifies under the P-256 device key from the MSO over Sig_structure(DeviceAuthenticationBytes(reader's transcript, docType, device namespaces)); listed alterations give not-Valid; DeviceAuthenticationBytes is injective in transcript, docType and device namespaces (enc injectivity), so a signature from another session/docType is over different bytes. Tied by two-session adversarial correspondence and an independent to-be-signed computation.",
+        "level_note": "Trusted: as C03; non-P-256 device keys with explicit coordinates make the reader panic (C15 finding), modelled as `panics`.",
+        "technique": "Lean 4 proof (decision logic + injectivity of the CBOR encoder) + cross-session adversarial correspondence",
+        "assumptions": ["signature unforgeability"],
+    },
     "C06": {
         "rule": "two concurrent real sessions; from every synchronised state (saved and reloaded through stringify/parse) each fresh honest message of either direction is delivered as: single-bit flips of the ciphertext "
                 "(boundary + sampled positions; thorough: every bit), truncations and extension re-wrapped as SessionData, every earlier message of the direction (replay/reorder), every message of the other direction (reflection), "
